@@ -565,6 +565,13 @@ def run(repo, tier, out, props, resources):
         # within the per-query timeout: it keeps the K=2 tables in the thorough tier
         def do(c_K=(2 if case["resource"] == "aggregated" and case["pit"] else K)):
             check_case(h, case["resource"], case, ast, rec, crec if case["resource"] != "aggregated" else None, c_K, case["features"], prefix, tag)
+        if prefix == "C35":
+            # structural: a filtered read that is answered (not refused) must not draw on a table / column this configuration never writes
+            import types
+            from reads import no_read_of_unwritten_tables
+            for r_, what in ((rec, f"{case['resource']}.filtered" + ("[pit]" if case["pit"] else "")), (crec, f"{case['resource']}.filtered-count" + ("[pit]" if case["pit"] else ""))):
+                if r_ is not None:
+                    no_read_of_unwritten_tables(h, types.SimpleNamespace(features=case["features"]), r_, what)
         if case["alone"]:
             # alone in its bucket: every row belongs to this ledger (see reads.py); patch make_ctx through a flag
             global _ALONE
